@@ -5,6 +5,13 @@ HERE = os.path.dirname(os.path.dirname(os.path.abspath(__file__)))
 pid = sys.argv[1]
 subs = [a.split('=') for a in sys.argv[2:]]
 s = open(os.path.join(HERE, 'notes', pid + '.md')).read()
+# the LAST proposal in the notes wins (strengthening passes append an updated text)
+_idx = [m_.start() for m_ in re.finditer(r'(?i)level[ _]text', s)]
+if len(_idx) > 1:
+    _notes_before = [m_.start() for m_ in re.finditer(r'(?i)level[ _]note', s)]
+    # start at the last 'level text' that is followed by a 'level note'
+    _cands = [i for i in _idx if any(j > i for j in _notes_before)]
+    s = s[max(0, _cands[-1] - 3):]
 m = re.search(r'(?is)[`*\s]*level[ _]text[`*\s]*[:(][^\n]*?(?=\S)(.*?)[`*\s(]*level[ _]note[`*\s)]*[:(](.*?)(?=\n#+ |\Z)', s)
 if not m:
     m2 = re.search(r'(?is)level[ _]text(.*?)level[ _]note(.*?)(?=\n#+ |\Z)', s)
